@@ -409,7 +409,7 @@ def main(argv=None):
         print("not reproduced")
         return 0
     quick = a.tier == "quick"
-    ev = common.Evidence(PROP, a.tier, a.seed, "exploration", "seeded reply sequences (1..6 replies; codes 100..599; 1..6 lines per reply; lines empty / header-like ('250 ok', '250-more', '999-') / leading '-' or blanks / non-ASCII / up to 2000 chars; plain and list framing; optional preliminary 1xx reply) sent by the real response writer of a Server subclass over the simulated network (seeded segmentation down to 1 byte, latency, narrow pipes) to the real client, in utf-8, latin-1 and cp1251; plus scripted mixed-code replies; non-trivial = every run; distinct = distinct run digests.  pure_subcheck.code_matches_pairs counts enumerated (code, mask) pairs of the pure function Code.matches")
+    ev = common.Evidence(PROP, a.tier, a.seed, "exploration", "seeded reply sequences (1..6 replies; codes 100..599; 1..6 lines per reply; lines empty / header-like ('250 ok', '250-more', '999-') / leading '-' or blanks / non-ASCII / up to 2000 chars; plain and list framing; optional preliminary 1xx reply) sent by the real response writer of a Server subclass over the simulated network (seeded segmentation down to 1 byte, latency, narrow pipes) to the real client, in utf-8, latin-1 and cp1251; plus scripted mixed-code replies; non-trivial = every run; distinct = distinct run digests.  pure_subcheck.code_matches_pairs counts enumerated (code, mask) pairs of the pure function Code.matches Stalled-reader runs: 20..80 pipelined commands while the peer does not read the control channel; the decoded replies must be an exact prefix of the sent sequence.")
     rep = common.Reporter(PROP, ev)
     deadline = time.time() + (a.budget or (60 if quick else 1200))
     n = 5000 if quick else 600000
